@@ -10,7 +10,7 @@ from ..ndarr import Arr, InterpRaise
 from ..absint import Interp
 from ..libmodels import Models
 from ..engine import budget
-from ..paths import approx_paths, path_text, only_negligible
+from ..paths import approx_paths, path_text, only_negligible, zero_substitution
 
 RULES = {
     'R-LAGRANGE': 'abstract run of fd_weights_all on symbolic distinct nodes x_0..x_{m-1} and a symbolic expansion point: row k, entry v '
@@ -104,8 +104,7 @@ def generic(ctx, fb, where, m, rank, xs, c, row_rule):
                 paths = approx_paths(body, records=records, zero_symbols=('c',))
                 for (decisions, W, exc), rec in zip(paths, records):
                     lab = label + ('' if not decisions else '/' + path_text(decisions))
-                    zero = {v[1]: Poly.const(0) for v, o in rec if isinstance(v, tuple) and v[:1] == ('zero',) and o}
-                    rec = [(v, o) for v, o in rec if not (isinstance(v, tuple) and v[:1] == ('zero',))]
+                    zero, rec = zero_substitution(rec)
                     if exc is not None:
                         rep.violation(rule, construct, wh, {'raises': exc.exc_name, 'message': exc.msg[:100]},
                                       'weights for distinct nodes', lab, key='raises')
